@@ -558,6 +558,28 @@ fn main() {
             cases.push(Case { op: Op::Sign { def, asset: k % env.assets.len(), thumbs: false }, st: Settings { trust: true, verify_after_sign: vas, verify_timestamp_trust: true, ocsp_fetch: false, tsa_root_trusted: false }, sc: SignerCfg { alg: "es256".into(), tsa: *tsa, ocsp: None } });
         }
     }
+    // directed: a definition that signs but does not validate (version-2 claim whose first action is not
+    // created/opened) — exercises the verify_after_sign arm of both flavours (error vs Invalid read-back)
+    for (k, alg) in ["ed25519", "ps256", "es384"].iter().enumerate() {
+        for vas in [false, true] {
+            for trust in [false, true] {
+                let def = GenDef {
+                    title: Some("invalid by construction".into()),
+                    cgi: vec![],
+                    vendor: None,
+                    claim_version: None,
+                    hash_alg: None,
+                    assertions: vec![],
+                    actions: vec![json!({"action": "c2pa.edited"})],
+                    actions_via_api: k % 2 == 0,
+                    ingredients: vec![],
+                    intent: defgen::Intent::None,
+                    redactions: vec![],
+                };
+                cases.push(Case { op: Op::Sign { def, asset: (k + 2) % env.assets.len(), thumbs: false }, st: Settings { trust, verify_after_sign: vas, verify_timestamp_trust: true, ocsp_fetch: false, tsa_root_trusted: false }, sc: SignerCfg { alg: alg.to_string(), tsa: TsaMode::None, ocsp: None } });
+            }
+        }
+    }
     let n_sign = run.tier.pick(220usize, 6000usize);
     for i in 0..n_sign {
         let mut r = rng.fork(i as u64);
